@@ -48,6 +48,9 @@ SCENARIOS = [
     # between its two copies leaves a re-run that must copy 3 MiB from the output itself
     ("large-chunk-twice", ["--fixed-size", "3MiB", "--compression", "none"],
      (b"B" * 9 + bytes((i * 5) % 251 for i in range(3 * (1 << 20) - 9))) * 2 + b"C" * 11 + bytes((i * 11) % 249 for i in range(3 * (1 << 20) - 11)), None, None, []),
+    # truncated chunk hashes together with a larger number of chunks in flight; a chunk needed twice
+    ("dup-truncated-hash", ["--fixed-size", "4B", "--compression", "none", "--hash-length", "4"], b"AAAABBBBAAAACCCCBBBB", b"BBBB", None, ["--seed-output", "--buffered-chunks", "16"]),
+    ("dup-truncated-hash-fresh", ["--fixed-size", "4B", "--compression", "none", "--hash-length", "5"], b"AAAABBBBAAAACCCC", None, None, ["--buffered-chunks", "9"]),
     ("brotli-16", ["--fixed-size", "16B", "--compression", "brotli"], b"x" * 16 + b"y" * 16 + bytes(range(16)) + b"x" * 16, b"y" * 16 + b"q" * 16, None, ["--seed-output"]),
 ]
 
@@ -146,7 +149,11 @@ def run(ctx):
                             f.write(prior)
 
             def clone_cmd(extra_flags):
-                c = [bita, "clone", "--buffered-chunks", "2"] + extra_flags
+                c = [bita, "clone"] + extra_flags
+                if "--buffered-chunks" not in extra_flags:
+                    # the re-run after a crash keeps the scenario's setting
+                    bc = flags[flags.index("--buffered-chunks") + 1] if "--buffered-chunks" in flags else "2"
+                    c += ["--buffered-chunks", bc]
                 if seed is not None:
                     c += ["--seed", seedp]
                 return c + [arc, outp]
